@@ -14,6 +14,7 @@
 EXTENDS HpackP, FiniteSets, TLC
 
 CONSTANTS Names, Values,       \* strings
+          LongLens,            \* extra values: strings of these lengths (integer-coding boundaries, 5.1)
           MaxVals, LimitVals,  \* arguments of SetMaxDynamicTableSize / ...Limit
           MaxSteps             \* bound on the history length
 
@@ -30,7 +31,11 @@ VARIABLES etab, emax, elimit, emin, eupd,     \* encoder (Layer M)
           steps
 vars == <<etab, emax, elimit, emin, eupd, d, inblk, rtok, updok, derr, low, sigok, stale, steps>>
 
-Fields == {Fld(n, v, s) : n \in Names, v \in Values, s \in BOOLEAN}
+\* a string of n symbols whose Huffman code is not shorter than the symbol (the raw form is used)
+RECURSIVE Rpt(_)
+Rpt(n) == IF n = 0 THEN "" ELSE IF n % 2 = 0 THEN Rpt(n \div 2) \o Rpt(n \div 2) ELSE "Z" \o Rpt(n - 1)
+AllValues == Values \cup {Rpt(n) : n \in LongLens}
+Fields == {Fld(n, v, s) : n \in Names, v \in AllValues, s \in BOOLEAN}
 
 \* ---------------------------------------------------------------- encoder (Layer M)
 \* searchTable: returns <<index, nameValueMatch>>
@@ -38,7 +43,7 @@ MinOf(S) == CHOOSE x \in S : \A y \in S : x <= y
 \* static part of the search, tabulated once (constant-level definitions are cached by TLC)
 SNameTab == [n \in Names |-> LET S == {i \in 1..NStatic : StaticTable[i].n = n} IN
                                IF S = {} THEN 0 ELSE MinOf(S)]
-SFullTab == [n \in Names |-> [v \in Values |->
+SFullTab == [n \in Names |-> [v \in AllValues |->
                LET S == {i \in 1..NStatic : StaticTable[i].n = n /\ StaticTable[i].v = v} IN
                IF S = {} THEN 0 ELSE MinOf(S)]]
 DynNameIdx(f) == {j \in 1..Len(etab) : etab[j].n = f.n}
